@@ -1249,7 +1249,10 @@ def run(rep, tier):
         "FunctionBindgen construction site classified by its abi entry point, the flag consumed (list declared / asserted "
         "false) before the body is appended on every path, single writer of the flag; R6.5/R6.6 the free primitive and the "
         "guard are the items decided in C24 (R24.2-5: not repeated here); R6.7 census: no other arm or function writes a "
-        "guard, forget, take-over or free template; R6.8 an import argument printed owned is lowered through `&name`. NOT decided: heap balance of an execution, that the element blocks "
+        "guard, forget, take-over or free template; R6.8 an import argument printed owned is lowered through `&name`. Around the arms: finish_block keeps the statements of a "
+        "non-empty element block, block nesting is tracked by push_block / finish_block only, GuestDeallocateVariant pairs case "
+        "block i with discriminant i, the embedded string_lift consumes its byte vector, rt WitMap::wit_map_len is len(), core "
+        "lower passes self.list_realloc() to the four lowering instructions. NOT decided: heap balance of an execution, that the element blocks "
         "(opaque here) are balanced among themselves beyond C03, SizeAlign, the allocator, user code.",
         trusted_base=["syn parse of the generator sources and of the assembled generated text",
                       "the model of format!/uwrite!/push_str text building in rules/C06.py (class Gen)",
